@@ -340,7 +340,11 @@ class WalkUnit(ApiUnit):
         base = oname(self.prop, self.target, "exit", "")
         if self.prop == "C14":
             return "done"
-        self.kcheck(ctx, base + "no-exception-against-a-conformant-agent", exc is None)
+        # (recorded finding D2 - duplicate OIDs collapse in BulkResult.listing and later positions shift - has one more
+        #  symptom since the progress check of the D3 fix exists: a root that is itself an instance and receives, by the
+        #  shift, its own OID as "answer" is refused as non-advancing. Only the D2 pattern is excused here.)
+        d2 = [(f, k) for f, k in (self.known_now() or []) if f == "D2"]
+        ctx.check(base + "no-exception-against-a-conformant-agent", exc is None, known=d2 or None)
         if exc is not None:
             return "raises:%s" % exc.cls.name
         # normal exit: the loop guard is false, i.e. every root is finished -> invariant gives full delivery.
